@@ -11,7 +11,7 @@ ALL = ["rel", "san", "raidprop", "oracle", "shim"]
 
 
 def main():
-    extra = [v for v in ("vectool", "loader", "loader_san", "ring", "filter")
+    extra = [v for v in ("vectool",  "loader", "loader_san", "ring", "filter")
              if os.path.exists(os.path.join(VERIF, "native", {"shim": "../shim/verifshim.c", "vectool": "vectool.c", "loader": "loader_harness.c",
                                                                 "loader_san": "loader_harness.c", "ring": "ring_harness.c", "filter": "filter_harness.c"}[v]))]
     out = build.build(ALL + extra)
